@@ -587,9 +587,22 @@ func genWalk(r *Rng) []*Scenario {
 // thresholds are crossed.
 func genWalkWide(r *Rng) []*Scenario {
 	base := []int{33, 64, 65, 128, 129, 256, 257, 512, 513, 1024, 1025, 1026, 2048, 2049, 4097}[r.Intn(15)]
+	huge := r.Chance(0.07)
+	if huge {
+		// a node with tens of thousands of children (a generated list, a long
+		// table of links): windows, batches or 16-bit counters a change
+		// introduces for the traversal stack are crossed only then
+		base = []int{8193, 16385, 32769, 16385, 32769}[r.Intn(5)]
+		if tierThorough {
+			base = []int{8193, 16385, 32769, 65537, 131073}[r.Intn(5)]
+		}
+	}
 	n := base + r.Range(-1, 1)
 	var sb strings.Builder
 	kind := r.Intn(4)
+	if huge && kind == 3 {
+		kind = 1 // 100 000 emphasis runs in one line are the inline parser's problem, not Walk's
+	}
 	for i := 0; i < n; i++ {
 		switch kind {
 		case 0: // many root blocks
@@ -614,6 +627,18 @@ func genWalkWide(r *Rng) []*Scenario {
 	ws.Reentrant = false
 	if r.Chance(0.5) {
 		ws.Tape = "" // a complete walk
+	} else if r.Chance(0.5) {
+		// the tape's prunes / aborts / panics start deep into the walk
+		ws.TapeSkip = r.Intn(2*n + 1)
+	}
+	if huge {
+		ws.Warm, ws.GC = false, false
+		// the harness's filtered / reversed views re-enumerate a node's
+		// children on every access: quadratic in the fan-out, the harness's
+		// own cost, not Walk's
+		if kind == 0 {
+			ws.View = "virtual-root"
+		}
 	}
 	return []*Scenario{{Property: "C18", Phase: "wide", Doc: []byte(sb.String()), Walk: ws}}
 }
